@@ -1,0 +1,947 @@
+//! Verification seam (compiled only with `--cfg solstat_verif`).
+//!
+//! Every call solstat makes into its environment -- directory listing, file reads and writes,
+//! `HashMap` iteration order in the report renderers, argv and `process::exit` -- can be routed
+//! through an [`Env`] installed per thread. When no `Env` is installed every facade falls through
+//! to `std`, so a guarded build without a simulator behaves exactly like the shipped one.
+//!
+//! Nothing in here is referenced unless the cfg flag is set.
+#![allow(dead_code)]
+
+use std::cell::RefCell;
+use std::collections::HashMap;
+use std::ffi::OsString;
+use std::hash::Hash;
+use std::io;
+use std::ops::{Deref, DerefMut};
+use std::path::{Path, PathBuf};
+use std::sync::Arc;
+
+/// How a file is opened for writing.
+#[derive(Clone, Copy, Debug, PartialEq, Eq)]
+pub enum WriteMode {
+    /// create or truncate, then write (`fs::write`, `File::create`)
+    Truncate,
+    /// create if missing, write at the end (`OpenOptions::append`)
+    Append,
+    /// fail if the file exists (`OpenOptions::create_new`)
+    CreateNew,
+}
+
+/// The environment as the program sees it. Paths are passed exactly as the program spelled them
+/// (relative ones unresolved); resolving them against a working directory is the `Env`'s business.
+pub trait Env: Send + Sync {
+    /// The entries of a directory as full paths (`dir.join(name)`), in the order the environment
+    /// chooses to list them.
+    fn read_dir(&self, dir: &Path) -> io::Result<Vec<PathBuf>>;
+    fn is_dir(&self, p: &Path) -> bool;
+    fn is_file(&self, p: &Path) -> bool;
+    /// Length in bytes of a file (metadata without contents).
+    fn file_len(&self, p: &Path) -> io::Result<u64>;
+    fn read(&self, p: &Path) -> io::Result<Vec<u8>>;
+    fn write(&self, p: &Path, data: &[u8], mode: WriteMode) -> io::Result<()>;
+    fn remove_file(&self, p: &Path) -> io::Result<()>;
+    fn remove_dir_all(&self, p: &Path) -> io::Result<()>;
+    fn rename(&self, from: &Path, to: &Path) -> io::Result<()>;
+    fn create_dir_all(&self, p: &Path) -> io::Result<()>;
+    fn current_dir(&self) -> io::Result<PathBuf>;
+    /// A permutation of `0..keys.len()`: the order in which a hash container with these keys
+    /// (given in canonical = sorted-by-debug-text order) is iterated at `site`.
+    fn iteration_order(&self, site: &'static str, keys: &[String]) -> Vec<usize>;
+    /// argv including the program name; `None` = use the real process arguments.
+    fn args(&self) -> Option<Vec<String>>;
+    /// Must not return.
+    fn exit(&self, code: i32) -> !;
+}
+
+thread_local! {
+    static ENV: RefCell<Option<Arc<dyn Env>>> = RefCell::new(None);
+}
+
+/// Route this thread's environment calls through `env`.
+pub fn install(env: Arc<dyn Env>) {
+    ENV.with(|e| *e.borrow_mut() = Some(env));
+}
+
+/// Back to `std` for this thread.
+pub fn uninstall() {
+    ENV.with(|e| *e.borrow_mut() = None);
+}
+
+pub fn current() -> Option<Arc<dyn Env>> {
+    ENV.with(|e| e.borrow().clone())
+}
+
+/// Payload with which a simulated `process::exit` unwinds (see `Env::exit`).
+#[derive(Debug, Clone, Copy, PartialEq, Eq)]
+pub struct SimExit(pub i32);
+
+// ------------------------------------------------------------------------------------------------
+// path facade
+
+/// A path handed out by the seam. Derefs to `Path`; the inherent methods that would touch the file
+/// system consult the installed `Env`.
+#[derive(Clone, Debug, PartialEq, Eq, Hash, PartialOrd, Ord)]
+pub struct PathSeam(pub PathBuf);
+
+impl PathSeam {
+    pub fn is_dir(&self) -> bool {
+        path_is_dir(&self.0)
+    }
+    pub fn is_file(&self) -> bool {
+        path_is_file(&self.0)
+    }
+    pub fn exists(&self) -> bool {
+        path_is_dir(&self.0) || path_is_file(&self.0)
+    }
+    pub fn metadata(&self) -> io::Result<fs::Metadata> {
+        fs::metadata(&self.0)
+    }
+    pub fn read_dir(&self) -> io::Result<fs::ReadDir> {
+        fs::read_dir(&self.0)
+    }
+    pub fn to_path_buf(&self) -> PathSeam {
+        self.clone()
+    }
+    pub fn join<P: AsRef<Path>>(&self, p: P) -> PathSeam {
+        PathSeam(self.0.join(p))
+    }
+    pub fn parent(&self) -> Option<PathSeam> {
+        self.0.parent().map(|p| PathSeam(p.to_path_buf()))
+    }
+    pub fn into_os_string(self) -> OsString {
+        self.0.into_os_string()
+    }
+    pub fn into_path_buf(self) -> PathBuf {
+        self.0
+    }
+}
+
+impl Deref for PathSeam {
+    type Target = Path;
+    fn deref(&self) -> &Path {
+        self.0.as_path()
+    }
+}
+impl AsRef<Path> for PathSeam {
+    fn as_ref(&self) -> &Path {
+        self.0.as_path()
+    }
+}
+impl AsRef<std::ffi::OsStr> for PathSeam {
+    fn as_ref(&self) -> &std::ffi::OsStr {
+        self.0.as_os_str()
+    }
+}
+impl From<PathSeam> for PathBuf {
+    fn from(p: PathSeam) -> PathBuf {
+        p.0
+    }
+}
+impl From<PathBuf> for PathSeam {
+    fn from(p: PathBuf) -> PathSeam {
+        PathSeam(p)
+    }
+}
+
+pub fn path_is_dir(p: &Path) -> bool {
+    match current() {
+        Some(env) => env.is_dir(p),
+        None => p.is_dir(),
+    }
+}
+pub fn path_is_file(p: &Path) -> bool {
+    match current() {
+        Some(env) => env.is_file(p),
+        None => p.is_file(),
+    }
+}
+
+// ------------------------------------------------------------------------------------------------
+// std::fs facade
+
+pub mod fs {
+    use super::{current, path_is_dir, path_is_file, PathSeam, WriteMode};
+    use std::ffi::OsString;
+    use std::io::{self, Read, Write};
+    use std::path::{Path, PathBuf};
+
+    pub struct DirEntry {
+        path: PathBuf,
+    }
+    impl DirEntry {
+        pub fn path(&self) -> PathSeam {
+            PathSeam(self.path.clone())
+        }
+        pub fn file_name(&self) -> OsString {
+            self.path
+                .file_name()
+                .map(|n| n.to_os_string())
+                .unwrap_or_default()
+        }
+        pub fn file_type(&self) -> io::Result<FileType> {
+            Ok(FileType {
+                dir: path_is_dir(&self.path),
+                file: path_is_file(&self.path),
+            })
+        }
+        pub fn metadata(&self) -> io::Result<Metadata> {
+            metadata(&self.path)
+        }
+    }
+
+    #[derive(Clone, Copy, Debug, PartialEq, Eq)]
+    pub struct FileType {
+        dir: bool,
+        file: bool,
+    }
+    impl FileType {
+        pub fn is_dir(&self) -> bool {
+            self.dir
+        }
+        pub fn is_file(&self) -> bool {
+            self.file
+        }
+        pub fn is_symlink(&self) -> bool {
+            false
+        }
+    }
+
+    #[derive(Clone, Debug)]
+    pub struct Metadata {
+        dir: bool,
+        file: bool,
+        len: u64,
+    }
+    impl Metadata {
+        pub fn is_dir(&self) -> bool {
+            self.dir
+        }
+        pub fn is_file(&self) -> bool {
+            self.file
+        }
+        pub fn len(&self) -> u64 {
+            self.len
+        }
+        pub fn file_type(&self) -> FileType {
+            FileType {
+                dir: self.dir,
+                file: self.file,
+            }
+        }
+    }
+
+    pub struct ReadDir {
+        entries: std::vec::IntoIter<PathBuf>,
+    }
+    impl Iterator for ReadDir {
+        type Item = io::Result<DirEntry>;
+        fn next(&mut self) -> Option<Self::Item> {
+            self.entries.next().map(|path| Ok(DirEntry { path }))
+        }
+    }
+
+    pub fn read_dir<P: AsRef<Path>>(dir: P) -> io::Result<ReadDir> {
+        let dir = dir.as_ref();
+        let entries = match current() {
+            Some(env) => env.read_dir(dir)?,
+            None => {
+                let mut v = vec![];
+                for e in std::fs::read_dir(dir)? {
+                    v.push(e?.path());
+                }
+                v
+            }
+        };
+        Ok(ReadDir {
+            entries: entries.into_iter(),
+        })
+    }
+
+    pub fn read<P: AsRef<Path>>(p: P) -> io::Result<Vec<u8>> {
+        match current() {
+            Some(env) => env.read(p.as_ref()),
+            None => std::fs::read(p),
+        }
+    }
+
+    pub fn read_to_string<P: AsRef<Path>>(p: P) -> io::Result<String> {
+        match current() {
+            Some(env) => {
+                let bytes = env.read(p.as_ref())?;
+                String::from_utf8(bytes).map_err(|_| {
+                    io::Error::new(
+                        io::ErrorKind::InvalidData,
+                        "stream did not contain valid UTF-8",
+                    )
+                })
+            }
+            None => std::fs::read_to_string(p),
+        }
+    }
+
+    pub fn write<P: AsRef<Path>, C: AsRef<[u8]>>(p: P, contents: C) -> io::Result<()> {
+        match current() {
+            Some(env) => env.write(p.as_ref(), contents.as_ref(), WriteMode::Truncate),
+            None => std::fs::write(p, contents),
+        }
+    }
+
+    pub fn metadata<P: AsRef<Path>>(p: P) -> io::Result<Metadata> {
+        let p = p.as_ref();
+        match current() {
+            Some(env) => {
+                if env.is_dir(p) {
+                    Ok(Metadata {
+                        dir: true,
+                        file: false,
+                        len: 0,
+                    })
+                } else if env.is_file(p) {
+                    Ok(Metadata {
+                        dir: false,
+                        file: true,
+                        len: env.file_len(p)?,
+                    })
+                } else {
+                    Err(io::Error::new(io::ErrorKind::NotFound, "no such file"))
+                }
+            }
+            None => {
+                let m = std::fs::metadata(p)?;
+                Ok(Metadata {
+                    dir: m.is_dir(),
+                    file: m.is_file(),
+                    len: m.len(),
+                })
+            }
+        }
+    }
+
+    pub fn symlink_metadata<P: AsRef<Path>>(p: P) -> io::Result<Metadata> {
+        metadata(p)
+    }
+
+    pub fn remove_file<P: AsRef<Path>>(p: P) -> io::Result<()> {
+        match current() {
+            Some(env) => env.remove_file(p.as_ref()),
+            None => std::fs::remove_file(p),
+        }
+    }
+
+    pub fn remove_dir_all<P: AsRef<Path>>(p: P) -> io::Result<()> {
+        match current() {
+            Some(env) => env.remove_dir_all(p.as_ref()),
+            None => std::fs::remove_dir_all(p),
+        }
+    }
+
+    pub fn rename<P: AsRef<Path>, Q: AsRef<Path>>(from: P, to: Q) -> io::Result<()> {
+        match current() {
+            Some(env) => env.rename(from.as_ref(), to.as_ref()),
+            None => std::fs::rename(from, to),
+        }
+    }
+
+    pub fn copy<P: AsRef<Path>, Q: AsRef<Path>>(from: P, to: Q) -> io::Result<u64> {
+        match current() {
+            Some(env) => {
+                let data = env.read(from.as_ref())?;
+                env.write(to.as_ref(), &data, WriteMode::Truncate)?;
+                Ok(data.len() as u64)
+            }
+            None => std::fs::copy(from, to),
+        }
+    }
+
+    pub fn create_dir<P: AsRef<Path>>(p: P) -> io::Result<()> {
+        create_dir_all(p)
+    }
+
+    pub fn create_dir_all<P: AsRef<Path>>(p: P) -> io::Result<()> {
+        match current() {
+            Some(env) => env.create_dir_all(p.as_ref()),
+            None => std::fs::create_dir_all(p),
+        }
+    }
+
+    pub fn canonicalize<P: AsRef<Path>>(p: P) -> io::Result<PathBuf> {
+        match current() {
+            Some(env) => {
+                let p = p.as_ref();
+                if p.is_absolute() {
+                    Ok(p.to_path_buf())
+                } else {
+                    Ok(env.current_dir()?.join(p))
+                }
+            }
+            None => std::fs::canonicalize(p),
+        }
+    }
+
+    /// `std::fs::File` look-alike. Under an `Env` a file opened for reading is loaded at open time
+    /// and a file opened for writing is buffered and handed to `Env::write` on flush/drop (each
+    /// flush is one environment write, so an append-mode handle shows up as appends).
+    pub struct File {
+        inner: Inner,
+    }
+    enum Inner {
+        Real(std::fs::File),
+        SimRead(io::Cursor<Vec<u8>>),
+        SimWrite {
+            path: PathBuf,
+            mode: WriteMode,
+            buf: Vec<u8>,
+            opened: bool,
+        },
+    }
+
+    impl File {
+        pub fn open<P: AsRef<Path>>(p: P) -> io::Result<File> {
+            match current() {
+                Some(env) => Ok(File {
+                    inner: Inner::SimRead(io::Cursor::new(env.read(p.as_ref())?)),
+                }),
+                None => Ok(File {
+                    inner: Inner::Real(std::fs::File::open(p)?),
+                }),
+            }
+        }
+        pub fn create<P: AsRef<Path>>(p: P) -> io::Result<File> {
+            match current() {
+                Some(env) => {
+                    // creating truncates immediately, as the real call does
+                    env.write(p.as_ref(), &[], WriteMode::Truncate)?;
+                    Ok(File {
+                        inner: Inner::SimWrite {
+                            path: p.as_ref().to_path_buf(),
+                            mode: WriteMode::Append,
+                            buf: vec![],
+                            opened: true,
+                        },
+                    })
+                }
+                None => Ok(File {
+                    inner: Inner::Real(std::fs::File::create(p)?),
+                }),
+            }
+        }
+        pub fn options() -> OpenOptions {
+            OpenOptions::new()
+        }
+        pub fn sync_all(&self) -> io::Result<()> {
+            Ok(())
+        }
+        pub fn sync_data(&self) -> io::Result<()> {
+            Ok(())
+        }
+        fn flush_sim(&mut self) -> io::Result<()> {
+            if let Inner::SimWrite {
+                path,
+                mode,
+                buf,
+                opened,
+            } = &mut self.inner
+            {
+                if !buf.is_empty() || !*opened {
+                    if let Some(env) = current() {
+                        env.write(path, buf, *mode)?;
+                    }
+                    buf.clear();
+                    *opened = true;
+                    // whatever the first write did, later ones continue at the end
+                    *mode = WriteMode::Append;
+                }
+            }
+            Ok(())
+        }
+    }
+    impl Read for File {
+        fn read(&mut self, out: &mut [u8]) -> io::Result<usize> {
+            match &mut self.inner {
+                Inner::Real(f) => f.read(out),
+                Inner::SimRead(c) => c.read(out),
+                Inner::SimWrite { .. } => Err(io::Error::new(
+                    io::ErrorKind::Other,
+                    "file not opened for reading",
+                )),
+            }
+        }
+    }
+    impl Write for File {
+        fn write(&mut self, data: &[u8]) -> io::Result<usize> {
+            match &mut self.inner {
+                Inner::Real(f) => f.write(data),
+                Inner::SimWrite { buf, .. } => {
+                    buf.extend_from_slice(data);
+                    Ok(data.len())
+                }
+                Inner::SimRead(_) => Err(io::Error::new(
+                    io::ErrorKind::Other,
+                    "file not opened for writing",
+                )),
+            }
+        }
+        fn flush(&mut self) -> io::Result<()> {
+            match &mut self.inner {
+                Inner::Real(f) => f.flush(),
+                _ => self.flush_sim(),
+            }
+        }
+    }
+    impl Drop for File {
+        fn drop(&mut self) {
+            let _ = self.flush_sim();
+        }
+    }
+
+    #[derive(Clone, Debug, Default)]
+    pub struct OpenOptions {
+        read: bool,
+        write: bool,
+        append: bool,
+        truncate: bool,
+        create: bool,
+        create_new: bool,
+    }
+    impl OpenOptions {
+        pub fn new() -> OpenOptions {
+            OpenOptions::default()
+        }
+        pub fn read(&mut self, v: bool) -> &mut Self {
+            self.read = v;
+            self
+        }
+        pub fn write(&mut self, v: bool) -> &mut Self {
+            self.write = v;
+            self
+        }
+        pub fn append(&mut self, v: bool) -> &mut Self {
+            self.append = v;
+            self
+        }
+        pub fn truncate(&mut self, v: bool) -> &mut Self {
+            self.truncate = v;
+            self
+        }
+        pub fn create(&mut self, v: bool) -> &mut Self {
+            self.create = v;
+            self
+        }
+        pub fn create_new(&mut self, v: bool) -> &mut Self {
+            self.create_new = v;
+            self
+        }
+        pub fn open<P: AsRef<Path>>(&self, p: P) -> io::Result<File> {
+            match current() {
+                None => {
+                    let f = std::fs::OpenOptions::new()
+                        .read(self.read)
+                        .write(self.write)
+                        .append(self.append)
+                        .truncate(self.truncate)
+                        .create(self.create)
+                        .create_new(self.create_new)
+                        .open(p)?;
+                    Ok(File {
+                        inner: Inner::Real(f),
+                    })
+                }
+                Some(env) => {
+                    let p = p.as_ref();
+                    if !(self.write || self.append) {
+                        return Ok(File {
+                            inner: Inner::SimRead(io::Cursor::new(env.read(p)?)),
+                        });
+                    }
+                    let exists = env.is_file(p);
+                    if !exists && !(self.create || self.create_new) {
+                        return Err(io::Error::new(io::ErrorKind::NotFound, "no such file"));
+                    }
+                    let mode = if self.create_new {
+                        WriteMode::CreateNew
+                    } else if self.append {
+                        WriteMode::Append
+                    } else if self.truncate {
+                        WriteMode::Truncate
+                    } else {
+                        // plain write(true): overwrite from offset 0 without truncating. The seam
+                        // does not model partial overwrites; it reports the weaker append so the
+                        // old bytes are seen to survive.
+                        WriteMode::Append
+                    };
+                    let mut f = File {
+                        inner: Inner::SimWrite {
+                            path: p.to_path_buf(),
+                            mode,
+                            buf: vec![],
+                            opened: false,
+                        },
+                    };
+                    // opening has an effect of its own (create / truncate / exists-error)
+                    f.flush_sim()?;
+                    Ok(f)
+                }
+            }
+        }
+    }
+}
+
+// ------------------------------------------------------------------------------------------------
+// std::process / std::env facades
+
+pub mod process {
+    pub fn exit(code: i32) -> ! {
+        match super::current() {
+            Some(env) => env.exit(code),
+            None => std::process::exit(code),
+        }
+    }
+}
+
+pub mod env {
+    use std::io;
+    use std::path::PathBuf;
+
+    pub fn current_dir() -> io::Result<PathBuf> {
+        match super::current() {
+            Some(env) => env.current_dir(),
+            None => std::env::current_dir(),
+        }
+    }
+    pub fn args() -> std::vec::IntoIter<String> {
+        match super::current().and_then(|e| e.args()) {
+            Some(a) => a.into_iter(),
+            None => std::env::args().collect::<Vec<_>>().into_iter(),
+        }
+    }
+    pub fn var(key: &str) -> Result<String, std::env::VarError> {
+        std::env::var(key)
+    }
+}
+
+// ------------------------------------------------------------------------------------------------
+// HashMap whose iteration order belongs to the environment
+
+/// Wraps the real `HashMap`; everything except iteration derefs to it. Iteration sorts the
+/// entries canonically (by the `Debug` text of the key) and then applies the permutation the
+/// `Env` chooses for this site, so the real `RandomState` is not observable and the order is a
+/// replayable decision. Without an `Env` it iterates like the wrapped map.
+pub struct SeamMap<K, V> {
+    inner: HashMap<K, V>,
+    site: &'static str,
+}
+
+impl<K: Eq + Hash + std::fmt::Debug, V> SeamMap<K, V> {
+    pub fn at(site: &'static str, inner: HashMap<K, V>) -> Self {
+        SeamMap { inner, site }
+    }
+
+    fn order(&self) -> Option<Vec<usize>> {
+        let env = current()?;
+        let mut keys: Vec<String> = self.inner.keys().map(|k| format!("{:?}", k)).collect();
+        keys.sort();
+        let mut perm = env.iteration_order(self.site, &keys);
+        // a malformed answer degrades to the identity rather than to a panic inside solstat
+        let n = keys.len();
+        let mut seen = vec![false; n];
+        let ok = perm.len() == n
+            && perm.iter().all(|&i| {
+                if i < n && !seen[i] {
+                    seen[i] = true;
+                    true
+                } else {
+                    false
+                }
+            });
+        if !ok {
+            perm = (0..n).collect();
+        }
+        Some(perm)
+    }
+
+    fn arrange<T>(&self, items: Vec<(String, T)>) -> Vec<T> {
+        let mut items = items;
+        match self.order() {
+            None => items.into_iter().map(|(_, t)| t).collect(),
+            Some(perm) => {
+                items.sort_by(|a, b| a.0.cmp(&b.0));
+                let mut slots: Vec<Option<T>> = items.into_iter().map(|(_, t)| Some(t)).collect();
+                perm.into_iter()
+                    .filter_map(|i| slots.get_mut(i).and_then(|s| s.take()))
+                    .collect()
+            }
+        }
+    }
+
+    pub fn iter(&self) -> std::vec::IntoIter<(&K, &V)> {
+        let items = self
+            .inner
+            .iter()
+            .map(|(k, v)| (format!("{:?}", k), (k, v)))
+            .collect();
+        self.arrange(items).into_iter()
+    }
+
+    pub fn iter_mut(&mut self) -> std::vec::IntoIter<(&K, &mut V)> {
+        let perm = self.order();
+        let mut items: Vec<(String, (&K, &mut V))> = self
+            .inner
+            .iter_mut()
+            .map(|(k, v)| (format!("{:?}", k), (k, v)))
+            .collect();
+        match perm {
+            None => items
+                .into_iter()
+                .map(|(_, t)| t)
+                .collect::<Vec<_>>()
+                .into_iter(),
+            Some(perm) => {
+                items.sort_by(|a, b| a.0.cmp(&b.0));
+                let mut slots: Vec<Option<(&K, &mut V)>> =
+                    items.into_iter().map(|(_, t)| Some(t)).collect();
+                perm.into_iter()
+                    .filter_map(|i| slots.get_mut(i).and_then(|s| s.take()))
+                    .collect::<Vec<_>>()
+                    .into_iter()
+            }
+        }
+    }
+
+    pub fn keys(&self) -> std::vec::IntoIter<&K> {
+        self.iter().map(|(k, _)| k).collect::<Vec<_>>().into_iter()
+    }
+
+    pub fn values(&self) -> std::vec::IntoIter<&V> {
+        self.iter().map(|(_, v)| v).collect::<Vec<_>>().into_iter()
+    }
+
+    pub fn into_keys(self) -> std::vec::IntoIter<K> {
+        self.into_iter()
+            .map(|(k, _)| k)
+            .collect::<Vec<_>>()
+            .into_iter()
+    }
+
+    pub fn into_values(self) -> std::vec::IntoIter<V> {
+        self.into_iter()
+            .map(|(_, v)| v)
+            .collect::<Vec<_>>()
+            .into_iter()
+    }
+
+    pub fn drain(&mut self) -> std::vec::IntoIter<(K, V)> {
+        let taken = std::mem::take(&mut self.inner);
+        SeamMap {
+            inner: taken,
+            site: self.site,
+        }
+        .into_iter()
+    }
+
+    pub fn into_inner(self) -> HashMap<K, V> {
+        self.inner
+    }
+}
+
+impl<K: Eq + Hash + std::fmt::Debug, V> From<HashMap<K, V>> for SeamMap<K, V> {
+    fn from(inner: HashMap<K, V>) -> Self {
+        SeamMap {
+            inner,
+            site: "map",
+        }
+    }
+}
+
+impl<K, V> Deref for SeamMap<K, V> {
+    type Target = HashMap<K, V>;
+    fn deref(&self) -> &HashMap<K, V> {
+        &self.inner
+    }
+}
+impl<K, V> DerefMut for SeamMap<K, V> {
+    fn deref_mut(&mut self) -> &mut HashMap<K, V> {
+        &mut self.inner
+    }
+}
+
+impl<K: Eq + Hash + std::fmt::Debug, V> IntoIterator for SeamMap<K, V> {
+    type Item = (K, V);
+    type IntoIter = std::vec::IntoIter<(K, V)>;
+    fn into_iter(self) -> Self::IntoIter {
+        let perm = self.order();
+        let mut items: Vec<(String, (K, V))> = self
+            .inner
+            .into_iter()
+            .map(|(k, v)| (format!("{:?}", k), (k, v)))
+            .collect();
+        match perm {
+            None => items
+                .into_iter()
+                .map(|(_, t)| t)
+                .collect::<Vec<_>>()
+                .into_iter(),
+            Some(perm) => {
+                items.sort_by(|a, b| a.0.cmp(&b.0));
+                let mut slots: Vec<Option<(K, V)>> =
+                    items.into_iter().map(|(_, t)| Some(t)).collect();
+                perm.into_iter()
+                    .filter_map(|i| slots.get_mut(i).and_then(|s| s.take()))
+                    .collect::<Vec<_>>()
+                    .into_iter()
+            }
+        }
+    }
+}
+
+impl<'a, K: Eq + Hash + std::fmt::Debug, V> IntoIterator for &'a SeamMap<K, V> {
+    type Item = (&'a K, &'a V);
+    type IntoIter = std::vec::IntoIter<(&'a K, &'a V)>;
+    fn into_iter(self) -> Self::IntoIter {
+        self.iter()
+    }
+}
+
+impl<'a, K: Eq + Hash + std::fmt::Debug, V> IntoIterator for &'a mut SeamMap<K, V> {
+    type Item = (&'a K, &'a mut V);
+    type IntoIter = std::vec::IntoIter<(&'a K, &'a mut V)>;
+    fn into_iter(self) -> Self::IntoIter {
+        self.iter_mut()
+    }
+}
+
+// ------------------------------------------------------------------------------------------------
+// argv facade (clap's real parser on the environment's argv)
+
+/// Stand-in for `opts::Args` inside `Opts::new`: `Args::parse()` becomes clap's own
+/// `try_parse_from` on the environment's argv, and a parse error ends the run through
+/// `Env::exit` with the status clap itself would use.
+pub struct ArgsSeam;
+
+impl ArgsSeam {
+    pub fn parse() -> crate::opts::Args {
+        use clap::Parser;
+        let env = match current() {
+            Some(env) => env,
+            None => return crate::opts::Args::parse(),
+        };
+        let argv = match env.args() {
+            Some(a) => a,
+            None => return crate::opts::Args::parse(),
+        };
+        match crate::opts::Args::try_parse_from(argv) {
+            Ok(a) => a,
+            Err(e) => {
+                // clap: help/version go to stdout and exit 0, errors to stderr and exit 2
+                let code = if e.use_stderr() { 2 } else { 0 };
+                env.exit(code)
+            }
+        }
+    }
+}
+
+// ------------------------------------------------------------------------------------------------
+// the real file system with seeded orderings (used by the guarded binary)
+
+/// An `Env` over the real file system in which the only environment decisions -- the order a
+/// directory is listed in and the order a findings map is iterated in -- are derived from a seed.
+pub struct RealSeeded {
+    pub seed: u64,
+}
+
+fn mix(mut z: u64) -> u64 {
+    z = z.wrapping_add(0x9E37_79B9_7F4A_7C15);
+    z = (z ^ (z >> 30)).wrapping_mul(0xBF58_476D_1CE4_E5B9);
+    z = (z ^ (z >> 27)).wrapping_mul(0x94D0_49BB_1331_11EB);
+    z ^ (z >> 31)
+}
+
+fn hash_bytes(seed: u64, bytes: &[u8]) -> u64 {
+    let mut h = mix(seed ^ 0x51_7C_C1_B7_27_22_0A_95);
+    for b in bytes {
+        h = mix(h ^ (*b as u64));
+    }
+    h
+}
+
+impl Env for RealSeeded {
+    fn read_dir(&self, dir: &Path) -> io::Result<Vec<PathBuf>> {
+        let mut v = vec![];
+        for e in std::fs::read_dir(dir)? {
+            v.push(e?.path());
+        }
+        let seed = self.seed;
+        v.sort_by_key(|p| {
+            (
+                hash_bytes(seed, p.as_os_str().to_string_lossy().as_bytes()),
+                p.clone(),
+            )
+        });
+        Ok(v)
+    }
+    fn is_dir(&self, p: &Path) -> bool {
+        p.is_dir()
+    }
+    fn is_file(&self, p: &Path) -> bool {
+        p.is_file()
+    }
+    fn file_len(&self, p: &Path) -> io::Result<u64> {
+        Ok(std::fs::metadata(p)?.len())
+    }
+    fn read(&self, p: &Path) -> io::Result<Vec<u8>> {
+        std::fs::read(p)
+    }
+    fn write(&self, p: &Path, data: &[u8], mode: WriteMode) -> io::Result<()> {
+        use std::io::Write;
+        match mode {
+            WriteMode::Truncate => std::fs::write(p, data),
+            WriteMode::Append => std::fs::OpenOptions::new()
+                .create(true)
+                .append(true)
+                .open(p)?
+                .write_all(data),
+            WriteMode::CreateNew => std::fs::OpenOptions::new()
+                .write(true)
+                .create_new(true)
+                .open(p)?
+                .write_all(data),
+        }
+    }
+    fn remove_file(&self, p: &Path) -> io::Result<()> {
+        std::fs::remove_file(p)
+    }
+    fn remove_dir_all(&self, p: &Path) -> io::Result<()> {
+        std::fs::remove_dir_all(p)
+    }
+    fn rename(&self, from: &Path, to: &Path) -> io::Result<()> {
+        std::fs::rename(from, to)
+    }
+    fn create_dir_all(&self, p: &Path) -> io::Result<()> {
+        std::fs::create_dir_all(p)
+    }
+    fn current_dir(&self) -> io::Result<PathBuf> {
+        std::env::current_dir()
+    }
+    fn iteration_order(&self, site: &'static str, keys: &[String]) -> Vec<usize> {
+        let seed = hash_bytes(self.seed, site.as_bytes());
+        let mut idx: Vec<usize> = (0..keys.len()).collect();
+        idx.sort_by_key(|&i| (hash_bytes(seed, keys[i].as_bytes()), i));
+        idx
+    }
+    fn args(&self) -> Option<Vec<String>> {
+        None
+    }
+    fn exit(&self, code: i32) -> ! {
+        std::process::exit(code)
+    }
+}
+
+/// Called by the guarded `main`: with `SOLSTAT_VERIF_SEED=<u64>` in the environment the run's
+/// listing and iteration orders are taken from that seed; otherwise nothing is installed.
+pub fn install_from_process_env() {
+    if let Ok(s) = std::env::var("SOLSTAT_VERIF_SEED") {
+        if let Ok(seed) = s.trim().parse::<u64>() {
+            install(Arc::new(RealSeeded { seed }));
+        }
+    }
+}
